@@ -644,6 +644,11 @@ func replayMain(prop, path string) int {
 	var pretty map[string]any
 	json.Unmarshal(r.Out, &pretty)
 	finds, _ := pretty["finds"].([]any)
+	if tr, _ := pretty["trace"].([]any); len(tr) > 0 {
+		for _, l := range tr {
+			fmt.Println("  ", l)
+		}
+	}
 	hit := 0
 	for _, f := range finds {
 		m, _ := f.(map[string]any)
